@@ -195,7 +195,10 @@ class C08(World):
                 "loadopts": rng.choice(LOAD_CHOICES[load_family(fmt)]) if kind in ("mesh", "scene", "points") and fmt not in ("dict", "dict64") else {},
                 "opts": {"vertex_normal": rng.choice([None, True, False]), "include_attributes": rng.choice([None, True, False]), "include_normals": rng.choice([None, True, False]),
                          "include_color": rng.choice([None, True]), "merge_buffers": rng.choice([None, True]), "embed_buffers": rng.choice([None, True]), "unitize_normals": rng.choice([None, False]), "delimiter": rng.choice([None, None, ",", ";", "\t"])},
-                "dict_direct": rng.random() < 0.5}
+                "dict_direct": rng.random() < 0.5,
+                # the other way to export: by file name, the writer creating the file and its side files itself - possibly in a
+                # directory that already holds an older export under the same name; and a second export after an in-place edit
+                "by_name": fmt in fw.BY_NAME and rng.random() < 0.3, "over_older": rng.random() < 0.5, "re_edit": rng.random() < 0.3}
 
     def generate(self, rng, cfg):
         return {"config": cfg, "ops": [{"op": "pipe", "geom": fw.random_geometry_recipe(rng, cfg["kind"]), "rs": rng.randrange(2**31)}]}
@@ -214,12 +217,16 @@ class C08(World):
         finally:
             shutil.rmtree(scratch, ignore_errors=True)
 
-    def _export(self, obj, fmt, cfg, ctx, oracle):
+    def _export(self, obj, fmt, cfg, ctx, oracle, directory=None, older=None):
         try:
             opts = dict(cfg.get("opts") or {}, digits=cfg.get("digits"))
             if cfg["kind"] != "mesh":
                 # the mesh-only encoding options (normals, attributes) are not defined for other kinds
                 opts = {"digits": opts.get("digits"), "delimiter": opts.get("delimiter")}
+            if directory is not None:
+                os.makedirs(directory, exist_ok=True)
+                ctx.count("op:export-by-name" + ("-over-older" if older is not None or os.listdir(directory) else ""))
+                return fw.export_by_name(obj, fmt, opts, directory, older=older)
             return fw.export_payload(obj, fmt, opts)
         except (KeyboardInterrupt, SystemExit, MemoryError):
             raise
@@ -262,13 +269,23 @@ class C08(World):
             raise Inapplicable()
         want = fw.content(obj)
         before = snapshot(obj)
-        files, main, ft = self._export(obj, fmt, cfg, ctx, "export")
+        by_name = bool(cfg.get("by_name")) and fmt in fw.BY_NAME
+        d1 = os.path.join(scratch, "by_name_1") if by_name else None
+        older = None
+        if by_name and cfg.get("over_older") and kind != "voxel":
+            # the same model, somewhere else: same counts, hence side files of the same length, other content
+            older = fw.build_geometry(r, cfg["fmt"])
+            dim = 2 if kind == "path2d" else 3
+            Tm = np.eye(dim + 1)
+            Tm[:dim, dim] = [1.5, -2.5, 0.75][:dim]
+            older.apply_transform(Tm)
+        files, main, ft = self._export(obj, fmt, cfg, ctx, "export", directory=d1, older=older)
         ctx.count("op:export:" + fmt)
         ctx.steps_sim += 1
         if snapshot(obj) != before:
             ctx.fail("export-pure", fmt, "exporting modified the exported object")
         # exporting twice gives the same content
-        files2, _, _ = self._export(obj, fmt, cfg, ctx, "export-again")
+        files2, _, _ = self._export(obj, fmt, cfg, ctx, "export-again", directory=os.path.join(scratch, "by_name_2") if by_name else None)
         if fmt not in ("dxf",) and sorted(files2) == sorted(files) and any(files2[k] != files[k] for k in files) and fmt not in ("3mf", "dae", "gltf", "glb", "zip_glb"):
             ctx.fail("export-deterministic", fmt, "second export of the unchanged object produced different bytes")
         loaded = self._load(files, main, ft, cfg, scratch, ctx, "gen1", fmt)
@@ -291,11 +308,25 @@ class C08(World):
             tol1 = max(tol1, 1e-8)  # merging vertices moves a coordinate by at most tol.merge
         compare_content(got, want, tol1, ctx, "gen1", fmt)
         # generation 2: quantisation is idempotent
-        files_b, main_b, ft_b = self._export(g1, fmt, cfg, ctx, "gen2-export")
+        files_b, main_b, ft_b = self._export(g1, fmt, cfg, ctx, "gen2-export", directory=os.path.join(scratch, "by_name_3") if by_name else None)
         loaded2 = self._load(files_b, main_b, ft_b, cfg, scratch, ctx, "gen2", fmt)
         g2 = fw.normalise_loaded(loaded2, kind)
         ctx.count("check:gen2")
         compare_content(fw.content(g2), got, tol1 * 4, ctx, "gen2", fmt)
+        if cfg.get("re_edit") and kind in ("mesh", "points", "path2d", "path3d") and len(obj.vertices):
+            # the object lives on: edited in place, nothing read, exported again (by name: over its own earlier files)
+            how = int(op.get("rs", 0)) % 3
+            if how == 0:
+                obj.vertices *= 1.25
+            elif how == 1:
+                obj.vertices[0] += 0.375
+            else:
+                obj.vertices = np.array(obj.vertices) * 0.8 + 0.125
+            files_c, main_c, ft_c = self._export(obj, fmt, cfg, ctx, "export-after-edit", directory=d1)
+            want_c = fw.content(obj)
+            loaded_c = self._load(files_c, main_c, ft_c, cfg, scratch, ctx, "after-edit", fmt)
+            ctx.count("check:after-edit")
+            compare_content(fw.content(fw.normalise_loaded(loaded_c, kind)), want_c, tol1, ctx, "after-edit", fmt)
         ctx.event(kind, fmt, cfg["route"], cfg["transport"], len(files[main]))
 
     def simplify_program(self, program):
